@@ -115,6 +115,12 @@ def c14(e, tiers):
 CATALOGUE = {
     "C01": [C01_LR,
             H("c01::proofs::c01_q_actions_run_inside_read_section", Q, what="registry level: every action invocation of a delivery happens inside an open read section of the data lock (the one unregister's barrier waits for); no section left open", bounds="2 actions, 2 deliveries, sequential"),
+            H("c02::proofs_c01::c01_nest_delivery_inside_unregister", Q, timeout=2400, judge_repo_panics=True,
+              what="the clause 'a delivery nested on the very thread that is mid-removal': <=2 complete deliveries of the signal at every shim point of unregister(id) through the real dispatcher: the removed action's captures (ghost release event of the shim Arc) are released exactly once, by the mutator and not while a delivery is on the stack, nothing is touched after its release, the surviving actions are not released, each nested delivery runs the old or the new list inside an open read section, no section stays open",
+              bounds="NEST depth 1, <=2 nested deliveries; 2 actions on the signal, 1 on another"),
+            H("c02::proofs_c01::c01_nest_delivery_inside_unregister_signal", Q, timeout=2400, judge_repo_panics=True,
+              what="same for unregister_signal (both actions of the signal removed)",
+              bounds="NEST depth 1, <=2 nested deliveries"),
             H("c01::proofs::c01_lr_w1x2_r1x2_k4", T, lr=True, timeout=3000,
               what="real half_lock.rs: 1 writer thread x 2 store(), 1 reader thread with two consecutive read sections (second one in the other generation slot)",
               bounds="Lal-Reps K=4 rounds, 2 threads, spin bound 4, unwind 8")],
